@@ -171,39 +171,40 @@ impl Run {
     }
 }
 
-fn check(run: &Run, dropped_client: bool, desc: &str) -> Result<(), String> {
+fn check(run: &Run, dropped_client: bool, desc: &str) -> Vec<String> {
+    let mut errs: Vec<String> = vec![];
     let s = run.shared.lock().unwrap();
     let wire = &s.wire;
     if let Some(v) = s.violations.first() {
-        return Err(format!("{v}; wire {wire:?}; {desc}"));
+        errs.push(format!("{v}; wire {wire:?}; {desc}"));
     }
     for (id, body) in &s.bodies {
         if *body != format!("req {id}") {
-            return Err(format!("C01: request id {id} was written with the body of another call ({body}); {desc}"));
+            errs.push(format!("C01: request id {id} was written with the body of another call ({body}); {desc}"));
         }
     }
     for k in 0..run.results.len() {
         let id = k as u64;
         if let Some(Ok(body)) = &run.results[k] {
             if *body != format!("reply to {k}") {
-                return Err(format!("C01: call {k} completed with {body:?}; wire {wire:?}; {desc}"));
+                errs.push(format!("C01: call {k} completed with {body:?}; wire {wire:?}; {desc}"));
             }
         }
         let reqs: Vec<usize> = wire.iter().enumerate().filter(|(_, w)| **w == W::Req(id)).map(|(i, _)| i).collect();
         let cancels: Vec<usize> = wire.iter().enumerate().filter(|(_, w)| **w == W::Cancel(id)).map(|(i, _)| i).collect();
         if cancels.len() > 1 {
-            return Err(format!("C03: cancellation for id {id} transmitted {} times; wire {wire:?}; {desc}", cancels.len()));
+            errs.push(format!("C03: cancellation for id {id} transmitted {} times; wire {wire:?}; {desc}", cancels.len()));
         }
         if let Some(&c) = cancels.first() {
             if reqs.first().map_or(true, |&r| r > c) {
-                return Err(format!("C03: cancellation for id {id} transmitted without/before its request; wire {wire:?}; {desc}"));
+                errs.push(format!("C03: cancellation for id {id} transmitted without/before its request; wire {wire:?}; {desc}"));
             }
             if matches!(run.results[k], Some(Ok(_))) {
-                return Err(format!("C03: cancellation transmitted for call {k}, which resolved normally; wire {wire:?}; {desc}"));
+                errs.push(format!("C03: cancellation transmitted for call {k}, which resolved normally; wire {wire:?}; {desc}"));
             }
         }
         if run.dropped_unresolved[k] && !run.reply_injected[k] && !reqs.is_empty() && cancels.is_empty() && run.dispatch_done.is_none() {
-            return Err(format!("C03: call {k} was abandoned, its request was transmitted and no cancellation followed; wire {wire:?}; {desc}"));
+            errs.push(format!("C03: call {k} was abandoned, its request was transmitted and no cancellation followed; wire {wire:?}; {desc}"));
         }
     }
     if dropped_client {
@@ -217,18 +218,18 @@ fn check(run: &Run, dropped_client: bool, desc: &str) -> Result<(), String> {
             });
             if !outstanding {
                 if run.dispatch_done != Some(Ok(())) {
-                    return Err(format!("C10: last handle dropped and nothing outstanding, but the dispatch did not complete successfully ({:?}); wire {wire:?}; {desc}", run.dispatch_done));
+                    errs.push(format!("C10: last handle dropped and nothing outstanding, but the dispatch did not complete successfully ({:?}); wire {wire:?}; {desc}", run.dispatch_done));
                 }
                 if closes != 1 || wire.last() != Some(&W::Closed) {
-                    return Err(format!("C10: the write side must be closed exactly once, after everything queued was transmitted; wire {wire:?}; {desc}"));
+                    errs.push(format!("C10: the write side must be closed exactly once, after everything queued was transmitted; wire {wire:?}; {desc}"));
                 }
             }
         }
         if closes > 1 {
-            return Err(format!("C10/C14: transport closed {closes} times; wire {wire:?}; {desc}"));
+            errs.push(format!("C10/C14: transport closed {closes} times; wire {wire:?}; {desc}"));
         }
     }
-    Ok(())
+    errs
 }
 
 fn permutations(n: usize) -> Vec<Vec<usize>> {
@@ -242,6 +243,7 @@ fn permutations(n: usize) -> Vec<Vec<usize>> {
 fn explore(max_calls: usize) -> usize {
     let fates = [Fate::Answered, Fate::DropQueuedOrEarly, Fate::DropLate, Fate::Kept];
     let mut evaluations = 0usize;
+    let mut failures: Vec<(String, String)> = vec![];
     for n in 1..=max_calls {
         let n_fate_combos = 4usize.pow(n as u32);
         for fc in 0..n_fate_combos {
@@ -296,8 +298,12 @@ fn explore(max_calls: usize) -> usize {
                                     run.poll_dispatch();
                                 }
                                 evaluations += 1;
-                                if let Err(e) = check(&run, drop_client, &desc) {
-                                    panic!("{e}");
+                                // keep the first failure of every oracle (by its property prefix), over the whole search, for attribution
+                                for e in check(&run, drop_client, &desc) {
+                                    let tag = e.split(':').next().unwrap_or("").to_string();
+                                    if !failures.iter().any(|(t, _): &(String, String)| *t == tag) {
+                                        failures.push((tag, e));
+                                    }
                                 }
                             }
                         }
@@ -306,6 +312,10 @@ fn explore(max_calls: usize) -> usize {
             }
         }
     }
+    for (_, e) in &failures {
+        println!("VERIF-FAIL {e}");
+    }
+    assert!(failures.is_empty(), "{}", failures[0].1);
     evaluations
 }
 
